@@ -68,10 +68,10 @@ def v2_header(method="GET", path="/bkt/key", pairs=(), extra_headers=(), secret=
     return rq
 
 
-def v2_presigned(method="GET", path="/bkt/key", pairs=(), expires_delta=600, secret=SK, ak=AK, mutate=None):
+def v2_presigned(method="GET", path="/bkt/key", pairs=(), expires_delta=600, secret=SK, ak=AK, mutate=None, extra_headers=()):
     exp = str(int(datetime.datetime.now(datetime.timezone.utc).timestamp()) + expires_delta)
-    hs = [("host", "localhost")]
-    sts = sigref.v2_string_to_sign(method, path, list(pairs), hs, exp)
+    hs = [("host", "localhost")] + list(extra_headers)
+    sts = sigref.v2_string_to_sign(method, path, list(pairs), hs, exp, presigned=True)
     sig = sigref.v2_signature(secret, sts)
     q = list(pairs) + [("AWSAccessKeyId", ak), ("Expires", exp), ("Signature", sig)]
     rq = {"method": method, "uri": path + "?" + sigref.query_string(q), "headers": hdrs(hs)}
